@@ -56,7 +56,7 @@ fn precision(max_stalls: u32) {
     }
 }
 
-// @cell props=C11 tier=thorough kind=attempt timeout=3000 mem=24 cls=K
+// @cell props=C11 tier=thorough kind=attempt timeout=900 mem=24 cls=K
 // @desc Timer::measure_precision on a clock advancing by a symbolic uniform step (1..=2^20 ticks at 10^12 Hz, i.e.
 // @desc ps) per reading: the reported precision equals the step
 #[kani::proof]
@@ -70,7 +70,7 @@ fn c11_precision_uniform_step() {
     precision(0)
 }
 
-// @cell props=C11 tier=thorough kind=attempt timeout=3000 mem=24 cls=K
+// @cell props=C11 tier=thorough kind=attempt timeout=900 mem=24 cls=K
 // @desc the same with a possibly zero-length first sample (second reading equal to the first): zero samples are
 // @desc discarded, the precision is still the step
 #[kani::proof]
